@@ -43,10 +43,17 @@ def load_known():
     return json.load(open(p))["findings"]
 
 
+def _sig_match(signature, pat):
+    """Exact match, or '*' as the only wildcard (signatures contain '[', ']' and '?' literally)."""
+    import re
+
+    return re.fullmatch(".*".join(re.escape(x) for x in pat.split("*")), signature) is not None
+
+
 def match_known(pid, signature, known):
     for k in known:
         if k["property"] == pid and k.get("status") == "open":
-            if any(fnmatch.fnmatchcase(signature, pat) for pat in k["signatures"]):
+            if any(_sig_match(signature, pat) for pat in k["signatures"]):
                 return k
     return None
 
